@@ -15,7 +15,7 @@ fn resize(xs: &mut Xstate) -> Xresult {
     let d2 = p.downcast_mut::<D2Context>().ok_or(Xerr::TypeError)?;
     let h = xs.pop_data()?.to_usize()?;
     let w = xs.pop_data()?.to_usize()?;
-    let n = w * h;
+    let n = w.checked_mul(h).ok_or(Xerr::IntegerOverflow)?;
     d2.width = w;
     d2.height = h;
     d2.data.resize(n, 0);
@@ -72,14 +72,18 @@ fn data_set(xs: &mut Xstate) -> Xresult {
     let d2 = p.downcast_mut::<D2Context>().ok_or(Xerr::TypeError)?;
     let y = xs.pop_data()?.to_usize()?;
     let x = xs.pop_data()?.to_usize()?;
-    let index = y * d2.width + x;
+    let d2_len = d2.data.len();
+    // a coordinate too large to compute an index from is outside any canvas
+    let index = y
+        .checked_mul(d2.width)
+        .and_then(|i| i.checked_add(x))
+        .ok_or(Xerr::out_of_bounds(usize::MAX, d2_len))?;
     let color = if let Some(pal) = &d2.pal {
         let pal_idx = d2.color as usize;
         *pal.get(pal_idx).ok_or(Xerr::out_of_bounds(pal_idx, pal.len()))?
     } else {
         d2.color
     };
-    let d2_len = d2.data.len();
     let p = d2.data.get_mut(index).ok_or(Xerr::out_of_bounds(index, d2_len))?;
     *p = color;
     OK
@@ -91,8 +95,8 @@ fn data_get(xs: &mut Xstate) -> Xresult {
     let d2 = p.downcast_mut::<D2Context>().ok_or(Xerr::TypeError)?;
     let y = xs.pop_data()?.to_usize()?;
     let x = xs.pop_data()?.to_usize()?;
-    let index = y * d2.width + x;
-    if let Some(p) = d2.data.get(index) {
+    let index = y.checked_mul(d2.width).and_then(|i| i.checked_add(x));
+    if let Some(p) = index.and_then(|i| d2.data.get(i)) {
         xs.push_data(Xcell::from(*p))
     } else {
         xs.push_data(NIL)
